@@ -310,15 +310,24 @@ func (c *Check) tagKeySplit(compileTag *ssa.Function) {
 // filterOrder (R3c): samples are selected on their labels before labels are hidden.
 func (c *Check) filterOrder(applyFocus *ssa.Function) {
 	p := c.P
-	find := func(name string) *ssa.Call {
-		for _, b := range applyFocus.Blocks {
-			for _, ins := range b.Instrs {
-				if call, ok := ins.(*ssa.Call); ok && call.Call.StaticCallee() != nil && call.Call.StaticCallee().Name() == name && fnPkgPath(call.Call.StaticCallee()) == modPath+"/profile" {
-					return call
-				}
-			}
+	// the point of applyFocus at which the filter runs: its own call of it, or its call of a
+	// helper that applies it
+	find := func(name string) *effSite {
+		for _, es := range effectiveSites(applyFocus, func(ins ssa.Instruction) bool {
+			call, ok := ins.(*ssa.Call)
+			return ok && call.Call.StaticCallee() != nil && call.Call.StaticCallee().Name() == name && fnPkgPath(call.Call.StaticCallee()) == modPath+"/profile"
+		}, 2) {
+			e := es
+			return &e
 		}
 		return nil
+	}
+	before := func(a, b *effSite) bool {
+		if a.at == b.at {
+			// both inside the same helper call: ordered there
+			return a.actual.Parent() == b.actual.Parent() && instrDominates(a.actual, b.actual)
+		}
+		return instrDominates(a.at, b.at)
 	}
 	for _, pair := range [][2]string{{"FilterSamplesByTag", "FilterTagsByName"}, {"FilterSamplesByName", "PruneFrom"}, {"FilterSamplesByName", "ShowFrom"}} {
 		a, b := find(pair[0]), find(pair[1])
@@ -327,14 +336,14 @@ func (c *Check) filterOrder(applyFocus *ssa.Function) {
 			c.undecided("C06-R3", key, p.relFile(applyFocus.Pos()), "calls not found in applyFocus")
 			continue
 		}
-		if instrDominates(a, b) {
-			c.ok("C06-R3", key, p.relFile(b.Pos()), pair[0]+" runs before "+pair[1], "the first call dominates the second in applyFocus")
+		if before(a, b) {
+			c.ok("C06-R3", key, p.relFile(b.at.Pos()), pair[0]+" runs before "+pair[1], "the first call dominates the second in applyFocus")
 		} else {
 			why := "frames would be removed before the name filters select samples on them"
 			if pair[0] == "FilterSamplesByTag" {
 				why = "tagfocus/tagignore would select on labels that taghide/tagshow already removed, so hiding a label changes which samples are kept"
 			}
-			c.bad("C06-R3", key, p.relFile(b.Pos()), pair[1]+" is not preceded by "+pair[0]+" in applyFocus: "+why)
+			c.bad("C06-R3", key, p.relFile(b.at.Pos()), pair[1]+" is not preceded by "+pair[0]+" in applyFocus: "+why)
 		}
 	}
 }
@@ -769,8 +778,12 @@ func (s *subseqChecker) rangeElem(v ssa.Value, obj ssa.Value, field int) bool {
 	return rangeIndex(ia.Index)
 }
 
+// wiringProg: the program optionSources may consult to follow parameters to their arguments.
+var wiringProg *Program
+
 // focusWiring (R3a): in applyFocus every filter parameter receives the option of the same name.
 func (c *Check) focusWiring(applyFocus *ssa.Function) {
+	wiringProg = c.P
 	want := map[string][]string{
 		"FilterSamplesByName": {"Focus", "Ignore", "Hide", "Show"},
 		"ShowFrom":            {"ShowFrom"},
@@ -779,7 +792,7 @@ func (c *Check) focusWiring(applyFocus *ssa.Function) {
 		"PruneFrom":           {"PruneFrom"},
 	}
 	count := map[string]int{}
-	for _, b := range applyFocus.Blocks {
+	for _, b := range helperBlocks(applyFocus, 2) {
 		for _, ins := range b.Instrs {
 			call, ok := ins.(*ssa.Call)
 			if !ok {
@@ -794,13 +807,22 @@ func (c *Check) focusWiring(applyFocus *ssa.Function) {
 				continue
 			}
 			count[sc.Name()]++
+			if h := b.Parent(); h != applyFocus && h.Parent() == nil {
+				// applied by a helper: the helper runs as often as it is called
+				if sites, asValue := directCallSites(c.P, h); asValue || len(sites) != 1 {
+					count[sc.Name()] += len(sites) - 1
+					if asValue {
+						count[sc.Name()]++
+					}
+				}
+			}
 			for i, opt := range opts {
 				key := "wiring:" + sc.Name() + ":" + opt
 				if i+1 >= len(call.Call.Args) {
 					c.undecided("C06-R3", key, c.P.relFile(call.Pos()), "unexpected arity")
 					continue
 				}
-				got := optionSources(call.Call.Args[i+1], map[ssa.Value]bool{})
+				got := optionSources(argOfParam(c.P, call.Call.Args[i+1], 0), map[ssa.Value]bool{})
 				if len(got) == 1 && got[0] == opt {
 					c.ok("C06-R3", key, c.P.relFile(call.Pos()), fmt.Sprintf("parameter %d of %s is compiled from option %s", i, sc.Name(), opt), "value flows from compile*(…, cfg."+opt+", …)")
 				} else {
@@ -856,6 +878,13 @@ func optionSources(v ssa.Value, seen map[ssa.Value]bool) []string {
 		}
 	case *ssa.ChangeType:
 		return optionSources(x.X, seen)
+	case *ssa.Parameter:
+		// handed in by the one caller of a helper
+		if wiringProg != nil {
+			if a := argOfParam(wiringProg, x, 0); a != ssa.Value(x) {
+				return optionSources(a, seen)
+			}
+		}
 	case *ssa.Field:
 		// the compiled filters are kept in a struct (built here or by a helper)
 		if vals, ok := fieldValues(x.X, x.Field, 0); ok && len(vals) > 0 {
@@ -867,10 +896,55 @@ func optionSources(v ssa.Value, seen map[ssa.Value]bool) []string {
 		}
 	case *ssa.Call:
 		if sc := x.Call.StaticCallee(); sc != nil && (sc.Name() == "compileRegexOption" || sc.Name() == "compileTagFilter") && len(x.Call.Args) > 1 {
-			if f := configFieldOf(x.Call.Args[1]); f != "" {
+			val := x.Call.Args[1]
+			if wiringProg != nil {
+				val = argOfParam(wiringProg, val, 0) // the option value may be a parameter of a helper
+			}
+			if f := configFieldOf(val); f != "" {
 				return []string{f}
 			}
 			return []string{"?" + describeValue(x.Call.Args[1])}
+		}
+		// a wrapper (function or method) around the compile functions: it returns what one of
+		// them produced for one of its own parameters
+		if sc := x.Call.StaticCallee(); sc != nil && fnInModule(sc) && len(sc.Blocks) > 0 {
+			var out []string
+			okAll := true
+			for _, b := range sc.Blocks {
+				ret, isRet := b.Instrs[len(b.Instrs)-1].(*ssa.Return)
+				if !isRet || len(ret.Results) == 0 {
+					continue
+				}
+				if k, isConst := ret.Results[0].(*ssa.Const); isConst && k.IsNil() {
+					continue // "option not set" / error path
+				}
+				inner := compileCallBehind(ret.Results[0], map[ssa.Value]bool{})
+				if inner == nil {
+					okAll = false
+					continue
+				}
+				vi := 1 // compileRegexOption(name, value, …), compileTagFilter(name, value, …)
+				if strings.HasPrefix(inner.Call.StaticCallee().String(), "regexp.") {
+					vi = 0 // regexp.Compile(value)
+				}
+				par, isPar := inner.Call.Args[vi].(*ssa.Parameter)
+				if !isPar {
+					okAll = false
+					continue
+				}
+				for i, q := range sc.Params {
+					if q == par && i < len(x.Call.Args) {
+						if f := configFieldOf(x.Call.Args[i]); f != "" {
+							out = append(out, f)
+						} else {
+							out = append(out, "?"+describeValue(x.Call.Args[i]))
+						}
+					}
+				}
+			}
+			if okAll && len(out) > 0 {
+				return dedup(out)
+			}
 		}
 		return []string{"?call " + x.Call.Value.Name()}
 	case *ssa.Const:
@@ -914,6 +988,25 @@ func (c *Check) focusOnce() {
 	f := c.anchorFn("C06-R3", "internal/driver", "generateRawReport")
 	if f == nil {
 		return
+	}
+	// the part of generateRawReport that builds the report may have been split out: work in
+	// the function (generateRawReport or a helper it calls) that calls report.New
+	isNew := func(ins ssa.Instruction) bool {
+		call, ok := ins.(*ssa.Call)
+		if !ok {
+			return false
+		}
+		sc := call.Call.StaticCallee()
+		return sc != nil && sc.Name() == "New" && fnPkgPath(sc) == modPath+"/internal/report"
+	}
+	for _, g := range withHelpers(f, 2) {
+		for _, b := range g.Blocks {
+			for _, ins := range b.Instrs {
+				if isNew(ins) && g.Parent() == nil {
+					f = g
+				}
+			}
+		}
 	}
 	var focusCalls []*ssa.Call
 	var newCall *ssa.Call
@@ -1128,6 +1221,58 @@ func branchOn(v ssa.Value) *ssa.If {
 				}
 			}
 		}
+	}
+	return nil
+}
+
+// compileCallBehind: the compileRegexOption / compileTagFilter call whose first result v is
+// (through tuple extraction, local variables and phis of one call).
+func compileCallBehind(v ssa.Value, seen map[ssa.Value]bool) *ssa.Call {
+	if seen[v] {
+		return nil
+	}
+	seen[v] = true
+	switch x := v.(type) {
+	case *ssa.Extract:
+		if x.Index != 0 {
+			return nil
+		}
+		return compileCallBehind(x.Tuple, seen)
+	case *ssa.Call:
+		if sc := x.Call.StaticCallee(); sc != nil && (sc.Name() == "compileRegexOption" || sc.Name() == "compileTagFilter") && len(x.Call.Args) > 1 {
+			return x
+		}
+		if sc := x.Call.StaticCallee(); sc != nil && (sc.String() == "regexp.Compile" || sc.String() == "regexp.MustCompile") {
+			return x
+		}
+	case *ssa.UnOp:
+		if vals, ok := cellValues(x.X); ok && len(vals) > 0 {
+			var res *ssa.Call
+			for _, e := range vals {
+				if k, isConst := e.(*ssa.Const); isConst && k.IsNil() {
+					continue // the variable's zero value before the assignment
+				}
+				c := compileCallBehind(e, seen)
+				if c == nil || (res != nil && res != c) {
+					return nil
+				}
+				res = c
+			}
+			return res
+		}
+	case *ssa.Phi:
+		var res *ssa.Call
+		for _, e := range x.Edges {
+			if k, isConst := e.(*ssa.Const); isConst && k.IsNil() {
+				continue
+			}
+			c := compileCallBehind(e, seen)
+			if c == nil || (res != nil && res != c) {
+				return nil
+			}
+			res = c
+		}
+		return res
 	}
 	return nil
 }
